@@ -159,10 +159,10 @@ def model_front(s):
     return ("other", s[:200])
 
 
-def run_front(sources, shards=12, want_tokens=True):
+def run_front(sources, shards=12, want_tokens=True, file=True):
     """sources: list of latin-1 str (bytes).  Returns list of dict(go, go_tokens, model, model_tokens, raw)"""
     # "file": the same source is also stored in a file and compiled with libvore.CompileFile (same accept/reject, same error class, same bytecode)
-    cases = [{"op": "e2e", "src_hex": vh.hexs(s), "file": True} for s in sources]
+    cases = [{"op": "e2e", "src_hex": vh.hexs(s), "file": bool(file)} for s in sources]
     if want_tokens:
         cases += [{"op": "lex", "src_hex": vh.hexs(s)} for s in sources]
     res = vh.run_cases(cases, shards=shards, timeout_ms=10000)
@@ -190,10 +190,10 @@ def run_front(sources, shards=12, want_tokens=True):
     return out
 
 
-def compare_front(ctx, sources, labels=None, impl_prop=True, stats=None):
+def compare_front(ctx, sources, labels=None, impl_prop=True, stats=None, file=True):
     """generic comparison: implementation must not panic/hang; model must agree with it.
     Returns the per-source dicts."""
-    outs = run_front(sources)
+    outs = run_front(sources, file=file)
     for i, (s, d) in enumerate(zip(sources, outs)):
         lab = labels[i] if labels else ""
         g = d["go"]
